@@ -44,7 +44,8 @@ func Mint(to interop.Hash160, amount int) {
 	ctx := storage.GetContext()
 	storage.Put(ctx, append([]byte("b"), to...), BalanceOf(to)+amount)
 	storage.Put(ctx, supplyKey, TotalSupply()+amount)
-	runtime.Notify("Transfer", nil, to, amount)
+	var none interop.Hash160
+	runtime.Notify("Transfer", none, to, amount)
 }
 
 // Transfer moves tokens and calls onNEP17Payment of a recipient contract.
